@@ -2,23 +2,25 @@
 """Apply each behaviour-preserving refactoring under a directory to /repo, run the named checks, revert.
 A check must never exit 1 on these (0 = still proved, 2 = undecided/lost anchor is acceptable, never an alarm)."""
 import subprocess, sys, os, json, glob
+REPO = os.environ.get('RIP_REPO', '/repo')      # a snapshot of the repository when run in the background (vp run --with-repo)
+HERE = os.path.dirname(os.path.dirname(os.path.abspath(__file__)))
 root = sys.argv[1]; props = sys.argv[2].split(',') if len(sys.argv) > 2 else None
 out = {}
 for d in sorted(glob.glob(os.path.join(root, '*/patch.diff'))):
     name = os.path.relpath(os.path.dirname(d), root)
-    subprocess.run(['git', '-C', '/repo', 'checkout', '--', '.'], check=True)
-    r = subprocess.run(['git', '-C', '/repo', 'apply', d], capture_output=True, text=True)
+    subprocess.run(['git', '-C', REPO, 'checkout', '--', '.'], check=True)
+    r = subprocess.run(['git', '-C', REPO, 'apply', d], capture_output=True, text=True)
     if r.returncode != 0:
         out[name] = 'does not apply: ' + r.stderr[:200]; continue
-    files = subprocess.run(['git', '-C', '/repo', 'diff', '--name-only'], capture_output=True, text=True).stdout.split()
+    files = subprocess.run(['git', '-C', REPO, 'diff', '--name-only'], capture_output=True, text=True).stdout.split()
     res = {}
     try:
         for p in (props or ['C01','C02','C04','C07','C08','C09','C10','C12','C13','C14','C15','C16','C17','C20']):
-            c = subprocess.run(['/verif/check', p, '--tier', 'quick'], capture_output=True, text=True, cwd='/verif')
+            c = subprocess.run([os.path.join(HERE, 'check'), p, '--tier', 'quick'], capture_output=True, text=True, cwd=HERE)
             last = [l for l in c.stdout.splitlines() if l.startswith(('VIOLATION', 'UNDECIDED', 'OK', 'KNOWN'))][-3:]
             res[p] = dict(exit=c.returncode, lines=last if c.returncode else [])
     finally:
-        subprocess.run(['git', '-C', '/repo', 'checkout', '--', '.'], check=True)
+        subprocess.run(['git', '-C', REPO, 'checkout', '--', '.'], check=True)
     out[name] = dict(files=files, results=res)
     print(name, files, {p: v['exit'] for p, v in res.items()}, flush=True)
     for p, v in res.items():
